@@ -20,9 +20,18 @@ def Tok.isFrame : Tok → Prop
   | .free .frame _ => True
   | _ => False
 
+/-- the token is about the handle array of a suspend point (whoever grew it) -/
 def Tok.isGrowth : Tok → Prop
   | .alloc .growth _ _ => True
   | .free .growth _ => True
+  | .alloc .rgrowth _ _ => True
+  | .free .rgrowth _ => True
+  | _ => False
+
+/-- the token is about a handle array grown by a *resolution* collecting the coroutines it released (second listed finding) -/
+def Tok.isRGrowth : Tok → Prop
+  | .alloc .rgrowth _ _ => True
+  | .free .rgrowth _ => True
   | _ => False
 
 def Tok.isRq : Tok → Prop
@@ -36,10 +45,12 @@ def Tok.shapeOk : Tok → Prop
   | .cb _ => True
   | .alloc .frame n _ => n = 1
   | .alloc .growth n held => inlineCount ≤ held ∧ n = held * growthFactor
+  | .alloc .rgrowth n held => inlineCount ≤ held ∧ n = held * growthFactor
   | .alloc .rq _ _ => True
   | .alloc .other _ _ => False
   | .free .frame n => n = 1
   | .free .growth _ => True
+  | .free .rgrowth _ => True
   | .free .rq _ => True
   | .free .other _ => False
 
@@ -67,10 +78,11 @@ structure Inv (H : Prop) (N : Nat) (F : Bool) (s : State) : Prop where
   frameTok : ∀ t ∈ s.out, t.isFrame → H
   coHeap : ∀ j, (s.cos j).heap = true → H
   genHeap : ∀ g, (s.gens g).heap = true → H
-  growthTok : ∀ t ∈ s.out, t.isGrowth → inlineCount < s.peak
-  spExt : ∀ k cap, (s.sps k).ext = some cap → inlineCount ≤ cap ∧ inlineCount < s.peak
-  tmpExt : ∀ cap, s.tmp.ext = some cap → inlineCount ≤ cap ∧ inlineCount < s.peak
-  pendExt : ∀ cap, s.pend = some cap → inlineCount < s.peak
+  growthTok : ∀ t ∈ s.out, t.isGrowth → inlineCount < s.peak ∧ (t.isRGrowth → inlineCount < s.rpeak)
+  spExt : ∀ k cap, (s.sps k).ext = some cap → inlineCount ≤ cap ∧ inlineCount < s.peak ∧ ((s.sps k).res = true → inlineCount < s.rpeak)
+  tmpExt : ∀ cap, s.tmp.ext = some cap → inlineCount ≤ cap ∧ inlineCount < s.peak ∧ (s.tmp.res = true → inlineCount < s.rpeak)
+  pendExt : ∀ cap, s.pend = some cap → inlineCount < s.peak ∧ (s.pendR = true → inlineCount < s.rpeak)
+  rpeakLe : s.rpeak ≤ s.peak
   rqF : s.rq.fO = s.pushes % slots
   rqS : s.rq.sO = s.pops % slots
   rqLen : s.pops + s.rq.items.length = s.pushes
@@ -78,7 +90,7 @@ structure Inv (H : Prop) (N : Nat) (F : Bool) (s : State) : Prop where
   rqBuilt : s.fresh = false → s.rq.built = true
 
 theorem inv_init (H : Prop) (N : Nat) (fresh : Bool) : Inv H N fresh (init fresh) := by
-  refine ⟨?_, ?_, ?_, ?_, ?_, ?_, ?_, ?_, ?_, ?_, ?_, ?_, ?_, ?_, ?_⟩ <;> simp [init, nFrameAlloc]
+  refine ⟨?_, ?_, ?_, ?_, ?_, ?_, ?_, ?_, ?_, ?_, ?_, ?_, ?_, ?_, ?_, ?_⟩ <;> simp [init, nFrameAlloc]
 
 theorem Inv.mono {H H' : Prop} {N N' : Nat} {F : Bool} {s : State} (h : Inv H N F s) (hh : H → H') (hn : N ≤ N') : Inv H' N' F s :=
   { h with frameCnt := Nat.le_trans h.frameCnt hn, frameTok := fun t ht hf => hh (h.frameTok t ht hf), coHeap := fun j hj => hh (h.coHeap j hj),
@@ -193,10 +205,13 @@ theorem inv_freeFrame {H : Prop} {N : Nat} {F : Bool} {s : State} (heap : Bool) 
 /-! ### suspend points -/
 
 /-- what the invariant knows about a suspend point value -/
-def SpOk (peak : Nat) (sp : Sp) : Prop := ∀ cap, sp.ext = some cap → inlineCount ≤ cap ∧ inlineCount < peak
+def SpOk (peak rpeak : Nat) (sp : Sp) : Prop :=
+  ∀ cap, sp.ext = some cap → inlineCount ≤ cap ∧ inlineCount < peak ∧ (sp.res = true → inlineCount < rpeak)
 
-theorem addToks_ok {peak : Nat} {sp : Sp} (hsp : SpOk peak sp) :
-    ∀ t ∈ sp.addToks, t.shapeOk ∧ ¬ t.isFrame ∧ ¬ t.isRq ∧ (t.isGrowth → inlineCount < max peak (sp.count + 1)) := by
+theorem addToks_ok {peak rpeak rpeak' : Nat} {sp : Sp} {r : Bool} (hsp : SpOk peak rpeak sp) (hrp : rpeak ≤ rpeak')
+    (hr : r = true → sp.count + 1 ≤ rpeak') :
+    ∀ t ∈ sp.addToks r, t.shapeOk ∧ ¬ t.isFrame ∧ ¬ t.isRq ∧
+      (t.isGrowth → inlineCount < max peak (sp.count + 1) ∧ (t.isRGrowth → inlineCount < rpeak')) := by
   intro t ht
   unfold Sp.addToks at ht
   split at ht
@@ -206,34 +221,61 @@ theorem addToks_ok {peak : Nat} {sp : Sp} (hsp : SpOk peak sp) :
       have := hsp cap hc
       simp only [List.mem_cons, List.not_mem_nil, or_false] at ht
       rcases ht with rfl | rfl
-      · simp [Tok.shapeOk, Tok.isFrame, Tok.isRq]; omega
-      · simp [Tok.shapeOk, Tok.isFrame, Tok.isRq]; omega
+      · cases hres : sp.res
+        · simp [Tok.shapeOk, Tok.isFrame, Tok.isRq, Tok.isGrowth, Tok.isRGrowth, catOf]; omega
+        · have := this.2.2 hres
+          simp [Tok.shapeOk, Tok.isFrame, Tok.isRq, Tok.isGrowth, Tok.isRGrowth, catOf]; omega
+      · cases r
+        · simp [Tok.shapeOk, Tok.isFrame, Tok.isRq, Tok.isGrowth, Tok.isRGrowth, catOf]; omega
+        · have := hr rfl
+          simp [Tok.shapeOk, Tok.isFrame, Tok.isRq, Tok.isGrowth, Tok.isRGrowth, catOf]; omega
     · simp at ht
   · split at ht
     · simp at ht
     · simp only [List.mem_cons, List.not_mem_nil, or_false] at ht
       subst ht
-      simp [Tok.shapeOk, Tok.isFrame, Tok.isRq]; omega
+      cases r
+      · simp [Tok.shapeOk, Tok.isFrame, Tok.isRq, Tok.isGrowth, Tok.isRGrowth, catOf]; omega
+      · have := hr rfl
+        simp [Tok.shapeOk, Tok.isFrame, Tok.isRq, Tok.isGrowth, Tok.isRGrowth, catOf]; omega
 
-theorem add_ok {peak : Nat} {sp : Sp} (h : Nat) (hsp : SpOk peak sp) : SpOk (max peak (sp.count + 1)) (sp.add h) := by
+theorem add_ok {peak rpeak rpeak' : Nat} {sp : Sp} (h : Nat) (r : Bool) (hsp : SpOk peak rpeak sp) (hrp : rpeak ≤ rpeak')
+    (hr : r = true → sp.count + 1 ≤ rpeak') : SpOk (max peak (sp.count + 1)) rpeak' (sp.add h r) := by
   intro cap hc
   have gp := gf_pos
   simp only [Sp.add, Sp.addExt] at hc
+  simp only [Sp.add, Sp.addRes]
   split at hc
   · rename_i c0 hc0
     have := hsp c0 hc0
+    try simp only [hc0]
     split at hc
     · rename_i hcnt
       simp only [Option.some.injEq] at hc
       subst hc
       have : sp.count ≤ sp.count * growthFactor := Nat.le_mul_of_pos_right _ gp
+      have h2 : c0 ≤ c0 * growthFactor := Nat.le_mul_of_pos_right _ gp
+      simp only [hcnt, if_true]
+      refine ⟨by omega, by omega, fun hrt => ?_⟩
+      have := hr hrt
       omega
-    · simp only [Option.some.injEq] at hc; omega
-  · split at hc
+    · rename_i hcnt
+      simp only [Option.some.injEq] at hc
+      simp only [hcnt, if_false]
+      refine ⟨by omega, by omega, fun hrt => ?_⟩
+      have := this.2.2 hrt
+      omega
+  · rename_i hnone
+    try simp only [hnone]
+    split at hc
     · simp at hc
-    · simp only [Option.some.injEq] at hc
+    · rename_i hcnt
+      simp only [Option.some.injEq] at hc
       subst hc
       have : sp.count ≤ sp.count * growthFactor := Nat.le_mul_of_pos_right _ gp
+      simp only [hcnt, if_false]
+      refine ⟨by omega, by omega, fun hrt => ?_⟩
+      have := hr hrt
       omega
 
 theorem notFrame_cnt {t : Tok} (h : ¬ t.isFrame) : t.isFrameAlloc = false := by
@@ -241,19 +283,24 @@ theorem notFrame_cnt {t : Tok} (h : ¬ t.isFrame) : t.isFrameAlloc = false := by
   | alloc c n hd => cases c <;> simp_all [Tok.isFrame, Tok.isFrameAlloc]
   | _ => rfl
 
-theorem SpOk.mono {p p' : Nat} {sp : Sp} (h : SpOk p sp) (hp : p ≤ p') : SpOk p' sp := by
+theorem SpOk.mono {p p' q q' : Nat} {sp : Sp} (h : SpOk p q sp) (hp : p ≤ p') (hq : q ≤ q') : SpOk p' q' sp := by
   intro cap hc
   have := h cap hc
+  refine ⟨this.1, by omega, fun hr => ?_⟩
+  have := this.2.2 hr
   omega
 
 /-- the invariant after the ghost `peak` went up and tokens of a suspend-point `add` were emitted -/
-theorem inv_add_core {H : Prop} {N : Nat} {F : Bool} {s s' : State} {sp : Sp} (h : Inv H N F s) (hsp : SpOk s.peak sp)
-    (hout : s'.out = sp.addToks ++ s.out) (hpeak : s'.peak = max s.peak (sp.count + 1))
-    (hcos : s'.cos = s.cos) (hgens : s'.gens = s.gens) (hpend : s'.pend = s.pend) (hrq : s'.rq = s.rq)
+theorem inv_add_core {H : Prop} {N : Nat} {F : Bool} {s s' : State} {sp : Sp} {r : Bool} (h : Inv H N F s) (hsp : SpOk s.peak s.rpeak sp)
+    (hout : s'.out = sp.addToks r ++ s.out) (hpeak : s'.peak = max s.peak (sp.count + 1))
+    (hrpeak : s'.rpeak = if r then max s.rpeak (sp.count + 1) else s.rpeak)
+    (hcos : s'.cos = s.cos) (hgens : s'.gens = s.gens) (hpend : s'.pend = s.pend) (hpendR : s'.pendR = s.pendR) (hrq : s'.rq = s.rq)
     (hpushes : s'.pushes = s.pushes) (hpops : s'.pops = s.pops) (hfresh : s'.fresh = s.fresh)
-    (hsps : ∀ k, SpOk s'.peak (s'.sps k)) (htmp : SpOk s'.peak s'.tmp) : Inv H N F s' := by
-  have hk := addToks_ok hsp
-  refine ⟨?_, ?_, ?_, ?_, ?_, ?_, ?_, ?_, ?_, ?_, ?_, ?_, ?_, ?_, ?_⟩
+    (hsps : ∀ k, SpOk s'.peak s'.rpeak (s'.sps k)) (htmp : SpOk s'.peak s'.rpeak s'.tmp) : Inv H N F s' := by
+  have hrp : s.rpeak ≤ s'.rpeak := by rw [hrpeak]; split <;> omega
+  have hr : r = true → sp.count + 1 ≤ s'.rpeak := by intro hr; rw [hrpeak, hr]; simp; omega
+  have hk := addToks_ok hsp hrp hr
+  refine ⟨?_, ?_, ?_, ?_, ?_, ?_, ?_, ?_, ?_, ?_, ?_, ?_, ?_, ?_, ?_, ?_⟩
   · rw [hfresh]; exact h.freshC
   · rw [hout]; exact cnt_app (fun t ht => notFrame_cnt (hk t ht).2.1) h.frameCnt
   · rw [hout]; exact mem_app (fun t ht => (hk t ht).1) h.shape
@@ -261,10 +308,15 @@ theorem inv_add_core {H : Prop} {N : Nat} {F : Bool} {s s' : State} {sp : Sp} (h
   · rw [hcos]; exact h.coHeap
   · rw [hgens]; exact h.genHeap
   · rw [hout, hpeak]
-    exact mem_app (fun t ht => (hk t ht).2.2.2) (fun t ht hg => by have := h.growthTok t ht hg; omega)
+    refine mem_app (fun t ht => (hk t ht).2.2.2) (fun t ht hg => ?_)
+    have := h.growthTok t ht hg
+    exact ⟨by omega, fun hrg => by have := this.2 hrg; omega⟩
   · exact fun k => hsps k
   · exact htmp
-  · rw [hpend, hpeak]; intro cap hc; have := h.pendExt cap hc; omega
+  · rw [hpend, hpendR, hpeak]; intro cap hc; have := h.pendExt cap hc
+    exact ⟨by omega, fun hrt => by have := this.2 hrt; omega⟩
+  · have := h.rpeakLe
+    rw [hpeak, hrpeak]; split <;> omega
   · rw [hrq, hpushes]; exact h.rqF
   · rw [hrq, hpops]; exact h.rqS
   · rw [hrq, hpushes, hpops]; exact h.rqLen
@@ -272,22 +324,29 @@ theorem inv_add_core {H : Prop} {N : Nat} {F : Bool} {s s' : State} {sp : Sp} (h
   · rw [hfresh, hrq]; exact h.rqBuilt
 
 theorem inv_addTmp {H : Prop} {N : Nat} {F : Bool} {s : State} (x : Nat) (h : Inv H N F s) : Inv H N F (addTmp s x) := by
-  apply inv_add_core h (sp := s.tmp) h.tmpExt <;> try rfl
+  apply inv_add_core (r := false) h (sp := s.tmp) h.tmpExt <;> try rfl
   · intro k
-    exact SpOk.mono (h.spExt k) (Nat.le_max_left _ _)
-  · exact add_ok x h.tmpExt
+    exact SpOk.mono (h.spExt k) (Nat.le_max_left _ _) (Nat.le_refl _)
+  · exact add_ok x false h.tmpExt (Nat.le_refl _) (by simp)
+
+theorem inv_addTmpR {H : Prop} {N : Nat} {F : Bool} {s : State} (x : Nat) (h : Inv H N F s) : Inv H N F (addTmpR s x) := by
+  apply inv_add_core (r := true) h (sp := s.tmp) h.tmpExt <;> try rfl
+  · intro k
+    exact SpOk.mono (h.spExt k) (Nat.le_max_left _ _) (Nat.le_max_left _ _)
+  · exact add_ok x true h.tmpExt (Nat.le_max_left _ _) (fun _ => Nat.le_max_right _ _)
 
 theorem inv_addSp {H : Prop} {N : Nat} {F : Bool} {s : State} (k x : Nat) (h : Inv H N F s) : Inv H N F (addSp s k x) := by
-  apply inv_add_core h (sp := s.sps k) (h.spExt k) <;> try rfl
+  apply inv_add_core (r := false) h (sp := s.sps k) (h.spExt k) <;> try rfl
   · intro k'
     simp only [addSp, upd]
     split
-    · exact add_ok x (h.spExt k)
-    · exact SpOk.mono (h.spExt k') (Nat.le_max_left _ _)
-  · exact SpOk.mono h.tmpExt (Nat.le_max_left _ _)
+    · exact add_ok x false (h.spExt k) (Nat.le_refl _) (by simp)
+    · exact SpOk.mono (h.spExt k') (Nat.le_max_left _ _) (Nat.le_refl _)
+  · exact SpOk.mono h.tmpExt (Nat.le_max_left _ _) (Nat.le_refl _)
 
-theorem inv_freeExt {H : Prop} {N : Nat} {F : Bool} {s : State} (e : Option Nat) (he : ∀ cap, e = some cap → inlineCount < s.peak)
-    (h : Inv H N F s) : Inv H N F (freeExt s e) := by
+theorem inv_freeExt {H : Prop} {N : Nat} {F : Bool} {s : State} (r : Bool) (e : Option Nat)
+    (he : ∀ cap, e = some cap → inlineCount < s.peak ∧ (r = true → inlineCount < s.rpeak))
+    (h : Inv H N F s) : Inv H N F (freeExt s r e) := by
   cases e with
   | none => exact h
   | some cap =>
@@ -295,11 +354,12 @@ theorem inv_freeExt {H : Prop} {N : Nat} {F : Bool} {s : State} (e : Option Nat)
     simp only [freeExt]
     refine { h with frameCnt := cnt_cons ?_ h.frameCnt, shape := mem_cons' ?_ h.shape, frameTok := mem_cons' ?_ h.frameTok,
                     growthTok := mem_cons' ?_ h.growthTok, rqTok := mem_cons' ?_ h.rqTok }
-    all_goals simp [Tok.shapeOk, Tok.isFrame, Tok.isGrowth, Tok.isRq, Tok.isFrameAlloc]
-    exact this
+    all_goals (cases r <;> simp [Tok.shapeOk, Tok.isFrame, Tok.isGrowth, Tok.isRGrowth, Tok.isRq, Tok.isFrameAlloc, catOf])
+    · exact this.1
+    · exact ⟨this.1, this.2 rfl⟩
 
 theorem inv_freeTmp {H : Prop} {N : Nat} {F : Bool} {s : State} (h : Inv H N F s) : Inv H N F (freeTmp s) :=
-  inv_clearTmp (inv_freeExt _ (fun cap hc => (h.tmpExt cap hc).2) h)
+  inv_clearTmp (inv_freeExt _ _ (fun cap hc => (h.tmpExt cap hc).2) h)
 
 theorem inv_stashTmp {H : Prop} {N : Nat} {F : Bool} {s : State} (h : Inv H N F s) : Inv H N F (stashTmp s) := by
   refine { h with tmpExt := ?_, pendExt := ?_ }
@@ -307,7 +367,7 @@ theorem inv_stashTmp {H : Prop} {N : Nat} {F : Bool} {s : State} (h : Inv H N F 
   · intro cap hc; exact (h.tmpExt cap hc).2
 
 theorem inv_freePend {H : Prop} {N : Nat} {F : Bool} {s : State} (h : Inv H N F s) : Inv H N F (freePend s) := by
-  have h1 := inv_freeExt s.pend (fun cap hc => h.pendExt cap hc) h
+  have h1 := inv_freeExt s.pendR s.pend (fun cap hc => h.pendExt cap hc) h
   refine { h1 with pendExt := ?_ }
   intro cap hc; simp [freePend] at hc
 
@@ -328,7 +388,7 @@ theorem inv_popSp {H : Prop} {N : Nat} {F : Bool} {s : State} (k : Nat) (h : Inv
   · exact h.spExt k' cap
 
 theorem inv_killSp {H : Prop} {N : Nat} {F : Bool} {s : State} (k : Nat) (h : Inv H N F s) : Inv H N F (killSp s k) := by
-  have h1 := inv_freeExt (s.sps k).ext (fun cap hc => (h.spExt k cap hc).2) h
+  have h1 := inv_freeExt (s.sps k).res (s.sps k).ext (fun cap hc => (h.spExt k cap hc).2) h
   refine { h1 with spExt := ?_ }
   intro k' cap
   simp only [killSp, upd]
@@ -510,7 +570,7 @@ theorem inv_walk {H : Prop} {N : Nat} {F : Bool} (i : Nat) (ws : List Waiter) : 
   | cons w ws ih =>
     intro s h
     cases w with
-    | coro j => exact ih (inv_addTmp j h)
+    | coro j => exact ih (inv_addTmpR j h)
     | cb => exact ih (inv_emit (by simp [Tok.plain]) h)
     | sync => exact ih h
 
@@ -827,8 +887,13 @@ theorem inv_step {H : Prop} {N : Nat} {F : Bool} (fuel : Nat) {s : State} (op : 
   | gs g v =>
     simp only [step]
     split
-    · refine up (inv_setGen g _ ?_ h')
-      rw [genStep_heap]; exact h'.genHeap g
+    · have ht : Inv (H ∨ (Op.gs g v).isHeapCreate) N F (genTouch s g) := by
+        unfold genTouch; split
+        · exact h'
+        · exact inv_rqTouch h'
+      refine up (inv_setGen g _ ?_ ht)
+      rw [genStep_heap]
+      exact h'.genHeap g
     · exact up h'
   | gd g => exact up (inv_killGen g h')
   | fin => exact up (inv_opFin fuel h')
